@@ -376,7 +376,9 @@ func (s *seqState) opCreate(temp bool) {
 	rng := s.rng
 	kind := []string{wallet.WalletTypeDeterministic, wallet.WalletTypeBip44, wallet.WalletTypeXPub, wallet.WalletTypeCollection}[rng.Intn(4)]
 	m := &mw{kind: kind, temp: temp}
-	opts := wallet.Options{Type: kind, Label: "label " + wfix.RandToken(rng, 4), Temp: temp, GenerateN: uint64(rng.Intn(4))}
+	// the crypto type is always named: a wallet created without one records the default scrypt
+	// registration (N=2^20, 1 GiB per operation) and a later EncryptWallet would use it
+	opts := wallet.Options{Type: kind, Label: "label " + wfix.RandToken(rng, 4), Temp: temp, GenerateN: uint64(rng.Intn(4)), CryptoType: s.cfg.CryptoType}
 	name := s.newName()
 	if rng.Intn(10) < 3 {
 		name = "" // the service picks a name
